@@ -28,7 +28,7 @@ THEOREMS = ["JanetModel.Props.C03." + t for t in (
     "compare_eq_zero_iff_equals", "compare_congr", "lt_le_gt_ge_agree",
     "tuple_by_content", "struct_by_slots", "ref_by_identity", "symbol_identity_iff_bytes",
     "struct_put_capacity", "struct_layout_canonical_partial", "struct_layout_canonical_partial_cluster",
-    "symcache_unique", "symcache_same_symbol", "struct_layout_canonical", "struct_layout_canonical_general", "struct_by_content",
+    "symcache_unique", "symcache_same_symbol", "struct_layout_canonical", "struct_layout_canonical_general", "struct_put_existing_key", "struct_by_content",
 )]
 ENV = dict(os.environ, ASAN_OPTIONS="detect_leaks=0:abort_on_error=0", UBSAN_OPTIONS="print_stacktrace=1")
 HARNESS_SRC = os.path.join(VERIF, "harness/C03/pool.c")
